@@ -388,6 +388,27 @@ def lean_rat(fr):
     return f"(({fr.numerator} : Rat) / {fr.denominator})"
 
 
+def _prefixes_by_execution(repo):
+    import json
+    import subprocess
+    code = ("import json, quantity.si_prefixes as m\n"
+            "print(json.dumps({k: [v.name, v.abbr, v.exp] for k, v in vars(m).items() "
+            "if isinstance(v, m.SIPrefix) and k.isupper()}))")
+    py = "/venv/bin/python" if os.path.exists("/venv/bin/python") else sys.executable
+    try:
+        p = subprocess.run([py, "-c", code], capture_output=True, text=True, timeout=120,
+                           env=dict(os.environ, PYTHONPATH=os.path.join(repo, "src"),
+                                    DECIMALFP_FORCE_PYTHON_IMPL="1"))
+        data = json.loads(p.stdout)
+    except Exception:      # noqa: BLE001
+        return {}
+    out = {}
+    for k, (name, abbr, exp) in data.items():
+        if isinstance(name, str) and isinstance(abbr, str) and isinstance(exp, int):
+            out[k] = (name, abbr, exp)
+    return out
+
+
 def parse_prefixes(repo=REPO):
     """NAME -> (name, abbr, exp) from si_prefixes.py (SIPrefix(...) calls)."""
     path = os.path.join(repo, "src", "quantity", "si_prefixes.py")
@@ -412,6 +433,12 @@ def parse_prefixes(repo=REPO):
     if factor_src != "return Decimal(10) ** self.exp":
         raise Untranslatable("SIPrefix.factor is no longer "
                              f"'Decimal(10) ** self.exp': {factor_src!r}")
+    if not out:
+        # the constants are not written as `NAME = SIPrefix(...)` statements
+        # (built in a loop, from a table, ...): read them off the EXECUTED
+        # module instead - the data the code itself constructs (fresh
+        # interpreter, the repository's own sources)
+        out = _prefixes_by_execution(repo)
     if not out:
         raise Untranslatable("no SIPrefix definitions found")
     return out
